@@ -20,7 +20,11 @@ fn special_byte(d: &Desc) -> u8 {
             Desc::Flex { .. } => Some((d.data_offset() + d.align()) as u8),
             Desc::Str { .. } => Some(0xC3),
             Desc::Enum { variants, .. } => variants.iter().flatten().find_map(find).or(Some(variants.len() as u8)),
-            Desc::CEnum { count, .. } => Some(*count as u8),
+            // a stored value that is no discriminant: the variant count, or a hole between explicit discriminants
+            Desc::CEnum { count, discs, .. } => Some(match discs {
+                Some(d) => (0u128..256).find(|x| !d.contains(x) && *x > 0).unwrap_or(0) as u8,
+                None => *count as u8,
+            }),
             Desc::Struct { fields, .. } => fields.iter().find_map(find),
             Desc::Vec { elem, .. } => find(elem),
             Desc::Array(e, _) => find(e),
